@@ -52,6 +52,7 @@ def gen_cases(tier: str, seed: int):
     for w in random_windows(seed, {"quick": 10, "thorough": 120}[tier]):
         for lo in range(0, 601, 200):
             yield {"kind": "stager", "window": -1, "w": w, "lo": lo, "hi": min(lo + 200, 601)}
+    yield from two_transition_cases(tier, seed)
     n = {"quick": 60, "thorough": 1500}[tier]
     rng = np.random.default_rng([seed, 16])
     warm_choices = list(range(0, 13)) + [37, 150]
@@ -70,6 +71,16 @@ def gen_cases(tier: str, seed: int):
                                           "trace_warm_up": bool(rng.integers(0, 2)), "step_size": 0.37, "n_process": 1,
                                           "front_end": "mcmc" if i % 4 == 3 else "hmc", "init": "state",
                                           "momentum_adapters": ["var"] if (i % 8 == 7 and mix == "step") else []}}
+
+
+def two_transition_cases(tier, seed):
+    rng = np.random.default_rng([seed, 1617])
+    for j in range({"quick": 12, "thorough": 120}[tier]):
+        yield {"kind": "sampler", "cfg": {"n_chain": 2, "n_warm": int([8, 12, 37, 20][j % 4]), "n_main": int(rng.choice([1, 3])),
+                                          "adapters": ["step"], "momentum_adapters": ["var"], "stager": [None, [3, 2, 2, 2.0], [2, 1, 0, 2.0]][j % 3],
+                                          "seed": int(rng.integers(0, 10**6)), "transition": str(rng.choice(["static", "multinomial"])),
+                                          "dim": 2, "trace_warm_up": bool(j % 2), "step_size": 0.37, "n_process": 1, "front_end": "mcmc",
+                                          "init": "state"}}
 
 
 def make_stager(w):
